@@ -262,7 +262,7 @@ func tlsHandshakes() []*handshake {
 	return []*handshake{
 		{Name: "starttls-init", Key: "starttls-init", Role: "init", Expect: "ok", TLS: true, MaxBytes: tlsMaxBytes, MaxOps: tlsMaxOps, New: func() *attempt {
 			a := &attempt{}
-			a.call = func(ctx context.Context, conn net.Conn, log *hspeer.Log) (*xmpp.Session, error) {
+			a.call = func(ctx context.Context, conn io.ReadWriter, log *hspeer.Log) (*xmpp.Session, error) {
 				fs := hspeer.InstrumentAll(log, xmpp.StartTLS(clientTLS()), xmpp.SASL("", "pw", sasl.Plain), xmpp.BindResource())
 				return xmpp.NewSession(ctx, serverJID, clientJID, conn, 0, xmpp.NewNegotiator(cfgOf(fs)))
 			}
@@ -316,7 +316,7 @@ func tlsHandshakes() []*handshake {
 		}},
 		{Name: "starttls-recv", Key: "starttls-recv", Role: "recv", Expect: "ok", TLS: true, MaxBytes: tlsMaxBytes, MaxOps: tlsMaxOps, New: func() *attempt {
 			a := &attempt{}
-			a.call = func(ctx context.Context, conn net.Conn, log *hspeer.Log) (*xmpp.Session, error) {
+			a.call = func(ctx context.Context, conn io.ReadWriter, log *hspeer.Log) (*xmpp.Session, error) {
 				fs := hspeer.InstrumentAll(log, xmpp.StartTLS(serverTLS()), xmpp.SASLServer(perm, sasl.Plain), xmpp.BindResource())
 				return xmpp.ReceiveSession(ctx, conn, 0, xmpp.NewNegotiator(cfgOf(fs)))
 			}
